@@ -48,6 +48,7 @@ static int oracle_on = 1;
 
 typedef struct { int64_t* v; size_t n, cap; } Vec;
 static void vpush(Vec* x, int64_t a) { if (x->n == x->cap) { x->cap = x->cap ? x->cap * 2 : 64; x->v = realloc(x->v, x->cap * sizeof(int64_t)); } x->v[x->n++] = a; }
+static void vfit(Vec* d, size_t n) { while (d->n < n) vpush(d, 0); }
 static int cmp_i64(const void* a, const void* b) { int64_t x = *(const int64_t*)a, y = *(const int64_t*)b; return (x > y) - (x < y); }
 static Vec ev_iss, ev_ret, ev_upd; static size_t ev_rawd;
 
@@ -123,7 +124,7 @@ static var mk_arg(ArgBuf* b, int64_t pay) {
 /* ------------------------------------------------------------------------------------------------ containers */
 #define NC 64
 enum { K_NONE = 0, K_ARR = 'A', K_LST = 'L', K_TBL = 'T', K_TRE = 'R', K_BARR = 'B', K_CELL = 'X' };
-typedef struct { int kind; Vec a, b; } Shadow;         /* reference: seq payloads in a (-1 = zero-filled); map keys a / values b */
+typedef struct { int kind; Vec a, b, seen; } Shadow;         /* reference: seq payloads in a (-1 = zero-filled); map keys a / values b */
 static Shadow sh[NC];
 static int is_seq(int k) { return k == K_ARR || k == K_LST || k == K_BARR; }
 static int is_map(int k) { return k == K_TBL || k == K_TRE; }
@@ -159,19 +160,20 @@ static void walk_tree(struct Tree* m, var node, WVec* out, size_t* guard) {
 }
 static int cmp_pair(const void* a, const void* b) { const WEl* x = a; const WEl* y = b; return (x->code > y->code) - (x->code < y->code); }
 
-/* white-box walk of container `h`; maps come out as k,v,k,v sorted by key code */
+/* white-box walk of container `h`; maps come out as k,v,k,v in storage order */
 static void walk(int kind, var h, WVec* out) {
   out->n = 0;
   switch (kind) {
     case K_ARR: case K_BARR: { struct Array* a = h; for (size_t i = 0; i < a->nitems; i++) { if (kind == K_ARR) walk_probe(out, Array_Item(a, i)); else walk_box(out, Array_Item(a, i)); } break; }
     case K_LST: { struct List* l = h; var it = l->head; size_t guard = l->nitems + 2; while (it && guard--) { walk_probe(out, it); it = *List_Next(l, it); } break; }
-    case K_TBL: { struct Table* t = h; for (size_t i = 0; i < t->nslots; i++) if (Table_Key_Hash(t, i) != 0) { walk_probe(out, Table_Key(t, i)); walk_probe(out, Table_Val(t, i)); } if (out->n) qsort(out->v, out->n / 2, 2 * sizeof(WEl), cmp_pair); break; }
-    case K_TRE: { struct Tree* m = h; size_t guard = m->nitems + 2; walk_tree(m, m->root, out, &guard); if (out->n) qsort(out->v, out->n / 2, 2 * sizeof(WEl), cmp_pair); break; }
+    case K_TBL: { struct Table* t = h; for (size_t i = 0; i < t->nslots; i++) if (Table_Key_Hash(t, i) != 0) { walk_probe(out, Table_Key(t, i)); walk_probe(out, Table_Val(t, i)); } break; }
+    case K_TRE: { struct Tree* m = h; size_t guard = m->nitems + 2; walk_tree(m, m->root, out, &guard); break; }
     case K_CELL: { struct Box* b = h; if (b->val) walk_box(out, b); break; }
   }
 }
 
 static uint64_t mix(uint64_t h, uint64_t x) { return (h ^ x) * 1099511628211ULL; }
+static uint64_t pair_hash(int64_t k, int64_t v) { return mix(mix(0x9E3779B97F4A7C15ULL, (uint64_t)k), (uint64_t)v); }
 #define LONG_LIST 48
 
 static void print_vec(FILE* f, const char* name, Vec* x) {
@@ -187,6 +189,7 @@ static void print_vec(FILE* f, const char* name, Vec* x) {
 static void print_el(FILE* f, int64_t code) { if (code == 0) fputc('_', f); else if (code == 1) fputc('!', f); else fprintf(f, "%lld", (long long)(code - 2)); }
 
 static WVec wk[NC];
+static uint64_t wacc[NC], ref_h[NC]; static size_t ref_n[NC]; static int ref_ok[NC];
 static uint64_t opno = 0;
 
 static void kf(const char* sig, const char* what) {
@@ -209,8 +212,13 @@ static void check_and_print(var* H, const char* outcome, int t1, int t2) {
     WVec* w = &wk[c]; walk(sh[c].kind, H[c], w);
     size_t n = is_map(sh[c].kind) ? w->n / 2 : w->n;
     dig = mix(dig, (uint64_t)c + 1); dig = mix(dig, (uint64_t)sh[c].kind); dig = mix(dig, n);
+    uint64_t hc;
+    if (is_map(sh[c].kind)) {                          /* order-independent: storage order is not part of the contents */
+      hc = 0;
+      for (size_t i = 0; i + 1 < w->n; i += 2) hc += pair_hash(w->v[i].code, w->v[i+1].code);
+    } else { hc = 1469598103934665603ULL; for (size_t i = 0; i < w->n; i++) hc = mix(hc, (uint64_t)w->v[i].code); }
+    dig = mix(dig, hc); wacc[c] = hc;
     for (size_t i = 0; i < w->n; i++) {
-      dig = mix(dig, (uint64_t)w->v[i].code);
       uint64_t t = w->v[i].tok;
       if (w->v[i].code == 0) raw++;
       else if (w->v[i].code == 1) dead++;
@@ -223,12 +231,18 @@ static void check_and_print(var* H, const char* outcome, int t1, int t2) {
       }
     }
     if (sh[c].kind != K_CELL && len(H[c]) != n) lenbad = c;
-    /* against the payload-level reference */
+    /* against the payload-level reference: always for the containers the op touched; for the others whenever their
+       contents hash differs from the one that was checked last (their reference cannot have changed) */
+    if (c != t1 && c != t2 && ref_ok[c] && ref_h[c] == hc && ref_n[c] == n) continue;
+    int before = contbad;
     if (is_map(sh[c].kind)) {
       if (sh[c].a.n != n) contbad = c;
-      else for (size_t i = 0; i < n; i++) {          /* reference pairs are kept sorted by key */
-        if (w->v[2*i].code != sh[c].a.v[i] + 2 || w->v[2*i+1].code != sh[c].b.v[i] + 2) contbad = c;
-      }
+      else { vfit(&sh[c].seen, n); for (size_t i = 0; i < n; i++) {          /* reference pairs are kept sorted by key: binary search */
+        int64_t kk = w->v[2*i].code - 2; size_t lo = 0, hi = n;
+        while (lo < hi) { size_t mid = (lo + hi) / 2; if (sh[c].a.v[mid] < kk) lo = mid + 1; else hi = mid; }
+        if (lo >= n || sh[c].a.v[lo] != kk || w->v[2*i+1].code != sh[c].b.v[lo] + 2 || (sh[c].seen.v[lo] == (int64_t)opno)) contbad = c;
+        else sh[c].seen.v[lo] = (int64_t)opno;
+      } }
     } else {
       if (sh[c].a.n != n) contbad = c;
       else for (size_t i = 0; i < n; i++) {
@@ -236,6 +250,7 @@ static void check_and_print(var* H, const char* outcome, int t1, int t2) {
         if (w->v[i].code != want) contbad = c;
       }
     }
+    ref_ok[c] = contbad == before; ref_h[c] = hc; ref_n[c] = n;
   }
   /* the observation */
   fprintf(vout, "O r=%s", outcome);
@@ -247,9 +262,9 @@ static void check_and_print(var* H, const char* outcome, int t1, int t2) {
     if (!sh[c].kind) { fprintf(vout, " %d:-", c); continue; }
     WVec* w = &wk[c];
     if (w->n > LONG_LIST) {
-      uint64_t h = 1469598103934665603ULL; for (size_t i = 0; i < w->n; i++) h = mix(h, (uint64_t)w->v[i].code);
-      fprintf(vout, " %d:%c#%zu:%llu", c, sh[c].kind, is_map(sh[c].kind) ? w->n / 2 : w->n, (unsigned long long)h); continue;
+      fprintf(vout, " %d:%c#%zu:%llu", c, sh[c].kind, is_map(sh[c].kind) ? w->n / 2 : w->n, (unsigned long long)wacc[c]); continue;
     }
+    if (is_map(sh[c].kind) && w->n) qsort(w->v, w->n / 2, 2 * sizeof(WEl), cmp_pair);
     fprintf(vout, " %d:%c%c", c, sh[c].kind, is_map(sh[c].kind) ? '{' : '[');
     if (is_map(sh[c].kind)) for (size_t i = 0; i + 1 < w->n; i += 2) { if (i) fputc(',', vout); print_el(vout, w->v[i].code); fputc(':', vout); print_el(vout, w->v[i+1].code); }
     else for (size_t i = 0; i < w->n; i++) { if (i) fputc(',', vout); print_el(vout, w->v[i].code); }
@@ -291,7 +306,7 @@ static void mset_ref(Shadow* s, int64_t k, int64_t v) {
   long i = mfind(s, k);
   if (i >= 0) { s->b.v[i] = v; return; }
   size_t j = 0; while (j < s->a.n && s->a.v[j] < k) j++;
-  vins(&s->a, j, k); vins(&s->b, j, v);
+  vins(&s->a, j, k); vins(&s->b, j, v); vpush(&s->seen, 0);
 }
 
 /* ------------------------------------------------------------------------------------------------ parsing */
@@ -311,7 +326,7 @@ static int used_name(int64_t c) { return c >= 0 && c < NC && sh[c].kind; }
 
 static void reset_events(void) { ev_iss.n = ev_ret.n = ev_upd.n = 0; ev_rawd = 0; }
 
-static void drop_shadow(int c) { sh[c].kind = 0; sh[c].a.n = sh[c].b.n = 0; }
+static void drop_shadow(int c) { sh[c].kind = 0; ref_ok[c] = 0; sh[c].a.n = sh[c].b.n = sh[c].seen.n = 0; }
 
 static var mk_pointee(int64_t pay) { ArgBuf ab; mk_heap = 1; var p = new(Probe, mk_arg(&ab, pay)); mk_heap = 0; return p; }
 
